@@ -8,12 +8,12 @@ import (
 // Yield sites. The first block is inside rux (verif-tagged hooks), the second in the harness.
 var siteNames = []string{
 	"serve.init", "serve.done", "dispatch.matched", "dispatch.chain", "dispatch.commit",
-	"cache.lookup", "cache.store", "cache.lock.len", "cache.lock.set", "cache.lock.get", "cache.lock.delete",
+	"cache.lookup", "cache.store", "cache.lock.len", "cache.lock.set", "cache.lock.get", "cache.lock.delete", "cache.hit",
 	"h.enter", "h.act", "h.next", "h.leave", "w.call", "client.next", "cop",
 }
 
 const (
-	siteHEnter = 11 + iota
+	siteHEnter = 12 + iota
 	siteHAct
 	siteHNext
 	siteHLeave
@@ -22,7 +22,7 @@ const (
 	siteCop
 )
 
-var ruxSites = siteNames[:11]
+var ruxSites = siteNames[:12]
 
 func siteIndex(name string) int {
 	for i, s := range siteNames {
